@@ -46,11 +46,13 @@ var c06Partners = []string{"1.0.0", "1.2", "2.0.0-alpha.1", "0.0.1", "1.0.0+b", 
 type c06Eco struct {
 	e        *eco.Eco
 	partners []eco.Ver
+	recent   []eco.Ver // ring of the most recently accepted hostile versions (compared with each other)
 }
 
 type c06State struct {
 	ecos      []*c06Eco
 	cur       atomic.Value // current input (string)
+	partner   atomic.Value // second operand when two hostile values are compared with each other
 	curEntry  atomic.Value
 	counter   atomic.Int64
 	evals     int64
@@ -133,6 +135,26 @@ func (st *c06State) callAll(s string, full bool) {
 				st.counters["self-compare-nonzero"]++
 			}
 			st.evals++
+			if full {
+				// hostile values against each other: both operands unusual at the same position
+				for _, p := range ce.recent {
+					st.evals += 2
+					st.partner.Store(e.Name + ":" + p.String())
+					st.counter.Add(1)
+					if _, pn := eco.SafeCompare(v, p); pn != nil {
+						st.report(core.Violation{Eco: e.Name, Op: "Compare", Args: []string{s, p.String()}, Rule: "panic", Got: pn.Value, Detail: pn.Stack})
+					}
+					if _, pn := eco.SafeCompare(p, v); pn != nil {
+						st.report(core.Violation{Eco: e.Name, Op: "Compare", Args: []string{p.String(), s}, Rule: "panic", Got: pn.Value, Detail: pn.Stack})
+					}
+				}
+				st.partner.Store("")
+				if len(ce.recent) < 6 {
+					ce.recent = append(ce.recent, v)
+				} else {
+					ce.recent[int(st.evals)%6] = v
+				}
+			}
 			for i, p := range ce.partners {
 				if !full && i >= 4 {
 					break
@@ -163,6 +185,17 @@ func (st *c06State) callAll(s string, full bool) {
 			st.counters["accepted:NewVersionRange"]++
 			if _, pn := eco.SafeRString(r); pn != nil {
 				st.report(core.Violation{Eco: e.Name, Op: "RString", Args: []string{s}, Rule: "panic", Got: pn.Value, Detail: pn.Stack})
+			}
+			if full {
+				for _, p := range ce.recent {
+					st.evals++
+					st.partner.Store(e.Name + ":" + p.String())
+					st.counter.Add(1)
+					if _, pn := eco.SafeContains(r, p); pn != nil {
+						st.report(core.Violation{Eco: e.Name, Op: "Contains", Args: []string{s, p.String()}, Rule: "panic", Got: pn.Value, Detail: pn.Stack})
+					}
+				}
+				st.partner.Store("")
 			}
 			for i, p := range ce.partners {
 				if !full && i >= 4 {
@@ -255,8 +288,9 @@ func C06Child(args []string) int {
 				continue
 			}
 			cur, _ := st.cur.Load().(string)
-			if now-cpuAtChange > budgetFor(len(cur)) {
-				st.viol = append(st.viol, core.Violation{Eco: "any", Op: "call", Args: []string{trunc(cur, 200), "len=" + itoa(len(cur))}, Rule: "cpu-budget",
+			partner, _ := st.partner.Load().(string)
+			if now-cpuAtChange > budgetFor(len(cur)+len(partner)) {
+				st.viol = append(st.viol, core.Violation{Eco: "any", Op: "call", Args: []string{trunc(cur, 200), trunc(partner, 200), "len=" + itoa(len(cur))}, Rule: "cpu-budget",
 					Got: fmt.Sprintf("call #%d used > %v of CPU", n, now-cpuAtChange), Want: "terminates within 5s+20ns*n^2"})
 				flush(false)
 				os.Exit(7)
@@ -294,11 +328,20 @@ func C06Child(args []string) int {
 			default:
 				s = "vers:" + Schemes[r.IntN(len(Schemes))] + "/" + gen.Pick(r, ">=", "<", "=", "!=", "<=", ">") + gen.One(en, r) + gen.Pick(r, "", "|<"+gen.One(en, r), "|!="+gen.One(en, r))
 			}
+			base := s
 			for m := 1 + r.IntN(3); m > 0; m-- {
 				s = gen.Hostile(s, r)
 			}
 			st.callAll(s, true)
 			st.counters["hostile_inputs"]++
+			if r.IntN(2) == 0 { // a sibling: another mutation of the same base (or the same foreign byte elsewhere)
+				s2 := gen.Hostile(base, r)
+				if r.IntN(2) == 0 {
+					s2 = gen.Hostile(s, r)
+				}
+				st.callAll(s2, true)
+				st.counters["hostile_inputs"]++
+			}
 		}
 	case "ladder":
 		sizes := []int{1000, 10000, 50000}
@@ -414,7 +457,25 @@ func evalC06(c *core.Ctx, e *eco.Eco, op string, args []string) []core.Violation
 		return nil
 	}
 	done := make(chan struct{})
-	go func() { st.callAll(args[0], true); close(done) }()
+	go func() {
+		st.callAll(args[0], true)
+		if len(args) > 1 && strings.Contains(args[1], ":") {
+			// "<eco>:<partner>": the two values are compared / range-tested against each other
+			k := strings.IndexByte(args[1], ':')
+			if pe := eco.ByName(args[1][:k]); pe != nil {
+				p, e1, p1 := pe.SafeNewVersion(args[1][k+1:])
+				v, e2, p2 := pe.SafeNewVersion(args[0])
+				if p1 == nil && p2 == nil && e1 == nil && e2 == nil && p != nil && v != nil {
+					eco.SafeCompare(v, p)
+					eco.SafeCompare(p, v)
+				}
+				if rg, e3, p3 := pe.SafeNewRange(args[0]); p3 == nil && e3 == nil && rg != nil && p != nil {
+					eco.SafeContains(rg, p)
+				}
+			}
+		}
+		close(done)
+	}()
 	select {
 	case <-done:
 	case <-time.After(120 * time.Second):
